@@ -15,6 +15,7 @@ run_one() {  # patch, prop
 }
 for f in mutants/*.diff; do p=$(basename "$f" | cut -c1-3); run_one "$(readlink -f $f)" $p; done
 for dd_ in seeded/*/; do
+  if grep -q '"not_caught": true' "$dd_/meta.json"; then echo "NOT-CAUGHT-BY-DESIGN $dd_"; continue; fi
   p=$(python3 -c "import json,sys; m=json.load(open('$dd_/meta.json')); c=m['caught_by_quick_tier'][0]; print(c.split()[0])")
   run_one "$(readlink -f $dd_/patch.diff)" $p
 done
